@@ -561,6 +561,8 @@ def ffi_rev_flow():
     rc, sch = from_json('schema', m['schema']); chk(rc, 'schema')
     cid, sid, iss = m['cred_def_id'].encode(), m['schema_id'].encode(), m['issuer_id'].encode()
     tails_dir = tempfile.mkdtemp(prefix='ffi-tails-', dir=os.path.dirname(flows_path))
+    import atexit, shutil
+    atexit.register(lambda: shutil.rmtree(tails_dir, ignore_errors=True))
     rrd, rrdp = H(), H()
     chk(fn('anoncreds_create_revocation_registry_def', [H, C.c_char_p, C.c_char_p, C.c_char_p, C.c_char_p, C.c_int64, C.c_char_p, C.POINTER(H), C.POINTER(H)])(
         cd, cid, iss, b'ffi', b'CL_ACCUM', 5, tails_dir.encode(), C.byref(rrd), C.byref(rrdp)), 'create_revocation_registry_def')
